@@ -270,3 +270,16 @@ pub fn findnode_log2distance(target: NodeId, peer: NodeId, size: usize) -> Optio
 // ---------------------------------------------------------------------------------------------
 
 pub use crate::{discv5::PERMIT_BAN_LIST, lru_time_cache::LruTimeCache};
+
+// ---------------------------------------------------------------------------------------------
+// Handler: virtual wire, probe, crafting toolkit
+// ---------------------------------------------------------------------------------------------
+
+pub use crate::handler::{
+    verif::{
+        decrypt_message, derive_keys_from_pubkey, encrypt_message, generate_session_keys,
+        reset_snapshots, sign_nonce, snapshot, whoareyou_ref, whoareyou_ref_nonce, ActiveSnap,
+        HandlerSnapshot, PendingSnap, SessionSnap, VirtualHandler,
+    },
+    ConnectionDirection, Handler, HandlerIn, HandlerOut, WhoAreYouRef,
+};
